@@ -127,6 +127,21 @@ def run_misc(k):
     return out, (repr(detail)[:80] if out == 'Return' else detail)
 
 
+def run_one_short(item):
+    """the number of steps the rule of (method, n, order) consumes comes from the specification (MC_Rules: nterms); a user generator
+    that yields one step less must raise ValueError, one that yields exactly that many must not"""
+    vlib.use_repo()
+    import numdifftools as nd
+    from numdifftools.step_generators import MinStepGenerator, MaxStepGenerator
+    m, n, o, nterms, short = item
+    ns = nterms - 1 if short else nterms
+    G = MaxStepGenerator if (n + o) % 2 else MinStepGenerator
+    def call():
+        return nd.Derivative(np.exp, n=n, method=m, order=o, step=G(base_step=0.25, step_ratio=2.0, num_steps=ns, check_num_steps=False))(0.5)
+    out, detail = classify(call)
+    return out, repr(detail)[:80]
+
+
 CFG = """CONSTANTS
   JacobianSkipsEvalFirst = %s
   EmitOn = %s
@@ -175,7 +190,19 @@ def run(tier, rep):
             rep.violation('misc-numbers-on-misuse:' + key, dict(case=m, got=out, detail=detail), '%s must raise ValueError but %s (%s)' % (key, out, detail))
         elif not r['misuse'] and out != 'Return':
             rep.violation('misc-false-alarm:' + key, dict(case=m, got=out, detail=detail), '%s is valid use but raised %s (%s)' % (key, out, detail))
-    states, trans, per = vlib.merge_tlc([res, dev])
+    # "fewer steps than the rule needs": the count from the specification's rule table (MC_Rules), one step short and exactly enough
+    import c06
+    rules = c06.tlc_cases('quick')
+    oitems = [(r_['m'], r_['n'], r_['o'], r_['nterms'], short) for r_ in rules.records
+              if r_['m'] in ('central', 'forward', 'backward', 'complex') and r_['nterms'] >= 2 and r_['n'] <= 8 and r_['o'] <= 8 for short in (True, False)]
+    for it_, (out, detail) in zip(oitems, vlib.pool_map(run_one_short, oitems, chunksize=16)):
+        n += 1
+        key = 'one-short(%s,n=%d,order=%d,rule terms %d)' % it_[:4]
+        if it_[4] and out != 'ValueError':
+            rep.violation('few-steps:numbers-on-misuse', dict(case=list(it_), got=out, detail=detail), '%s: a generator with %d steps must raise ValueError but %s (%s)' % (key, it_[3] - 1, out, detail))
+        elif not it_[4] and out != 'Return':
+            rep.violation('few-steps:false-alarm', dict(case=list(it_), got=out, detail=detail), '%s: a generator with exactly %d steps is valid use but raised %s (%s)' % (key, it_[3], out, detail))
+    states, trans, per = vlib.merge_tlc([res, dev, rules])
     cov = dict(states=states, transitions=trans, traces_validated_against_impl=n, exhaustive=True, call_cases=len(calls), misc_cases=len(misc),
                samples=[calls[5], misc[3]], evaluations=n, distinct_nontrivial=sum(1 for r in calls if r['misuse']) + sum(1 for r in misc if r['misuse']),
                rule='every terminal state of the Guards machine (class x method x n x complex x / complex-valued f x vectorised x enough steps x dim x full_output) and every entry of the argument-guard table; non-trivial = misuse cases',
